@@ -2854,6 +2854,70 @@ func c08r27(c *Ctx, r *Report) {
 	r.floor("stores into the search-request flag", n, 8)
 }
 
+// c13r17: `load`, `zero` and `one` mean "the list for the complete input is here". Terminal.UpdateList fires them
+// when the reader has finished — but the merger that arrives next may still be the result of a scan over an older
+// snapshot (a non-cancelling request does not stop the running scan; Matcher.Loop marks such a result
+// final=false, and core.go's --select-1 / --exit-0 look at that mark). The terminal has to look at it as well
+// (D102: it did not: `--bind one:accept` accepted `needle A` although the complete input had a second match, and
+// `load` saw FZF_MATCH_COUNT 1280840 of a final 2000000).
+func c13r17(c *Ctx, r *Report) {
+	l := c.L
+	r.rule("C13-R17", "A (completion events only for the final result)", "P1",
+		"in Terminal.UpdateList, every send of the load, zero or one event is control dependent on the field `final` of the merger being applied",
+		"actions bound to load / one / zero run on the filter of a prefix of the input: one:accept accepts although a later line matches as well, load:… sees a partial match count next to the final total")
+	fn := l.Fn("fzf", "(*Terminal).UpdateList")
+	fFinal := l.Field("fzf", "Merger", "final")
+	if fn == nil || fFinal == nil {
+		r.unest("anchors", token.NoPos, nil, "anchors Terminal.UpdateList / Merger.final", "cannot resolve")
+		return
+	}
+	want := map[int64]string{}
+	for _, nm := range []string{"Load", "Zero", "One"} {
+		if k := l.Const("tui", nm); k != nil {
+			if v, ok := constantInt64(k); ok {
+				want[v] = strings.ToLower(nm)
+			}
+		}
+	}
+	if len(want) != 3 {
+		r.unest("anchors", token.NoPos, nil, "anchors tui.Load / tui.Zero / tui.One", "cannot resolve")
+		return
+	}
+	cc := cdCache{}
+	n := 0
+	eachInstr(fn, func(in ssa.Instruction) {
+		snd, ok := in.(*ssa.Send)
+		if !ok {
+			return
+		}
+		name := ""
+		for v := range backwardSlice(snd.X, func(*ssa.CallCommon) bool { return true }, nil) {
+			if k, ok := constIntVal(v); ok {
+				if nm, found := want[k]; found {
+					if _, isEv := v.Type().(*types.Named); isEv {
+						name = nm
+					}
+				}
+			}
+		}
+		if name == "" {
+			return
+		}
+		n++
+		onFinal := false
+		for cond := range cc.of(snd) {
+			for v := range backwardSlice(cond, nil, nil) {
+				if f, _ := loadedField(v); f == fFinal {
+					onFinal = true
+				}
+			}
+		}
+		r.check(onFinal, fmt.Sprintf("%s:the %s event is sent for a final result only", relName(fn), name), snd.Pos(), fn,
+			"under merger.final", "the "+name+" event is sent for whatever merger arrives first after the input has ended, also for the result of a scan over an older snapshot")
+	})
+	r.floor("sends of load / zero / one in UpdateList", n, 3)
+}
+
 func round10(c *Ctx, r *Report, prop string) {
 	switch prop {
 	case "C01":
@@ -2895,6 +2959,7 @@ func round10(c *Ctx, r *Report, prop string) {
 		c08r25(c, r)
 		c08r26(c, r)
 		c08r27(c, r)
+		c13r17(c, r) // the events that announce the complete list act on the complete list
 	case "C14":
 		c14r21(c, r)
 	case "C15":
@@ -2921,6 +2986,7 @@ func round10(c *Ctx, r *Report, prop string) {
 	case "C12":
 		c12r15(c, r)
 	case "C13":
+		c13r17(c, r)
 		c06r8(c, r) // the count of items is the same whichever goroutine computes it
 	}
 }
